@@ -994,7 +994,57 @@ func (w *Walker) step(fr *frame, in ssa.Instruction) {
 		v := &Term{Op: "elem", Args: []*Term{it.Args[0]}, ID: id, Typ: tt.At(2).Type()}
 		fr.env[x] = &Term{Op: "tuple", Args: []*Term{ok, k, v}, Typ: x.Type()}
 	case *ssa.Select:
-		w.abort("unsupported", "select")
+		// one of the ready cases is taken (or the default of a non-blocking select): the path forks over the cases
+		n := len(x.States)
+		if !x.Blocking {
+			n++
+		}
+		if n == 0 {
+			w.abort("truncated", "select{} blocks forever")
+		}
+		idx := w.choose(n, "select")
+		tt := x.Type().(*types.Tuple)
+		res := make([]*Term, tt.Len())
+		res[0] = mkInt(int64(idx), types.Typ[types.Int])
+		if idx >= len(x.States) {
+			res[0] = mkInt(-1, types.Typ[types.Int])
+		}
+		res[1] = mkBool(true)
+		ri := 2
+		for i, st := range x.States {
+			ch := w.val(fr, st.Chan)
+			if st.Dir == types.RecvOnly {
+				var v *Term
+				if ri < tt.Len() {
+					v = zeroOf(tt.At(ri).Type())
+				}
+				if i == idx {
+					id := w.fresh("recv")
+					et := st.Chan.Type().Underlying().(*types.Chan).Elem()
+					r := &Term{Op: "recv", Args: []*Term{ch}, ID: id, Typ: et}
+					if w.OnRecv != nil {
+						if t, ok := w.OnRecv(w, ch, et, id); ok {
+							r = t
+						}
+					}
+					w.event(Event{Kind: "recv", Name: ch.String(), Args: []*Term{ch}, Result: r, Pos: x.Pos(), Instr: x, Fn: fn, Depth: depth})
+					v = r
+					if w.OnRecv != nil {
+						res[1] = mkBool(!r.IsNilConst())
+					} else {
+						res[1] = &Term{Op: "fresh", Name: fmt.Sprintf("recvok(%s)@%d", ch.String(), id), Typ: types.Typ[types.Bool]}
+					}
+				}
+				if ri < tt.Len() {
+					res[ri] = v
+					ri++
+				}
+			} else if i == idx {
+				v := w.val(fr, st.Send)
+				w.event(Event{Kind: "send", Name: ch.String(), Args: []*Term{ch, v}, Pos: x.Pos(), Instr: x, Fn: fn, Depth: depth})
+			}
+		}
+		fr.env[x] = &Term{Op: "tuple", Args: res, Typ: x.Type()}
 	default:
 		w.abort("unsupported", fmt.Sprintf("instruction %T", in))
 	}
@@ -1651,6 +1701,22 @@ func (w *Walker) builtin(name string, args []*Term, in ssa.Instruction, rt types
 		w.event(Event{Kind: "panic", Name: "panic", Args: args, Pos: in.Pos(), Instr: in, Fn: fn, Depth: depth})
 		w.abort("panic", "explicit panic")
 	case "min", "max":
+		// min(a, b) is  a < b ? a : b  (integers): decided like the comparison it stands for
+		if len(args) >= 1 && isIntType(rt) {
+			cur := args[0]
+			for _, b := range args[1:] {
+				op := token.LSS
+				if name == "max" {
+					op = token.GTR
+				}
+				if w.decide(w.binop(op, cur, b, types.Typ[types.Bool])) {
+					// cur stays
+				} else {
+					cur = b
+				}
+			}
+			return cur
+		}
 	}
 	t := &Term{Op: "call", Name: "builtin." + name, Args: args, Typ: rt}
 	w.event(Event{Kind: "call", Name: "builtin." + name, Args: args, Result: t, Pos: in.Pos(), Instr: in, Fn: fn, Depth: depth})
